@@ -80,6 +80,10 @@ where
 
     fn poll_next(mut self: Pin<&mut Self>, _cx: &mut Context<'_>) -> Poll<Option<Self::Item>> {
         let gate = unsafe { &mut shim_world::SM };
+        assert!(
+            gate.polls < unsafe { shim_world::SM_STEP_LIMIT },
+            "router spins: it polled its streams more often within one scheduling step than the work available allows"
+        );
         let src: fn(usize) -> Poll<Option<V::Item>> = unsafe {
             assert!(!SOURCE.is_null(), "harness must register a stream source");
             core::mem::transmute::<*const (), fn(usize) -> Poll<Option<V::Item>>>(SOURCE)
